@@ -382,3 +382,255 @@ def value_sources(fn, op, _seen=None):
     if dd and all(k == "assign" and not n["pl"]["p"] and n["rv"]["rv"] == "use" and n["rv"]["op"].get("k") in ("copy", "move") for _, k, n in dd):
         return many([n["rv"]["op"] for _, k, n in dd])
     return [op]
+
+
+# --------------------------------------------------------------------------- path conditions (decision tables)
+# `path_states` is generic (a candidate for engine.py / lib.py): lib_c02.region_states extended with (1) known enum
+# variants of locals (`x = Err(..)`, `x = helper()?`'s residual, the edge of a `match x` taken), which decide later
+# switches on the same value — `let r = match .. {.. => Err(e)}; r.map(f)` never reaches f on that path, with or
+# without jump threading —, (2) marks (which of the caller's sites of interest the path went through), (3) the known
+# variant of the returned value, (4) set-valued facts for boolean atoms, (5) liveness-based forgetting of tracked
+# locals so that unrelated diamonds do not multiply the states.
+RES_ADT, OPT_ADT, CF_ADT = "std::result::Result", "std::option::Option", "std::ops::ControlFlow"
+
+
+def edge_variant_sets(fn, sbb, info):
+    """For a switch on a discriminant: {successor block: frozenset(names of the variants that take this edge)}; the
+    `otherwise` edge stands for every variant without an explicit target."""
+    t = fn.blocks[sbb]["term"]
+    out = {}
+    for s in set(fn.succ(sbb)) | set(b for _v, b in t["targets"]) | {t["otherwise"]}:
+        out[s] = set()
+    for idx, name in info["variants"].items():
+        out.setdefault(fn.switch_target(sbb, idx), set()).add(name)
+    return {s: frozenset(v) for s, v in out.items()}
+
+
+def _mentions(o, acc):
+    if isinstance(o, dict):
+        if "l" in o and isinstance(o["l"], int) and "p" in o:
+            acc.add(o["l"])
+        for v in o.values():
+            _mentions(v, acc)
+    elif isinstance(o, list):
+        for v in o:
+            _mentions(v, acc)
+
+
+def _live_blocks(fn):
+    """local -> blocks from which a block that mentions the local (other than by dropping it) can be reached."""
+    uses = {}
+    for blk in fn.blocks:
+        acc = set()
+        for st in blk["st"]:
+            _mentions(st, acc)
+        t = blk["term"]
+        if t["t"] not in ("drop", "codrop"):
+            _mentions(t, acc)
+        if t["t"] == "return":
+            acc.add(0)
+        for l in acc:
+            uses.setdefault(l, set()).add(blk["bb"])
+    live = {}
+    for l, bs in uses.items():
+        seen = set()
+        st = list(bs)
+        while st:
+            b = st.pop()
+            if b in seen:
+                continue
+            seen.add(b)
+            st.extend(fn.preds(b))
+        live[l] = seen
+    return live
+
+
+def path_states(fn, start=0, switch_facts=None, atom_facts=None, marks=None, stops=(), max_states=120000):
+    """Path-sensitive exploration of fn's CFG from `start` to its ends (return / panic) and to the blocks `stops`.
+
+    switch_facts : {switch_bb: [(dim, {successor bb: frozenset(values the dimension can have on this edge)})]}
+    atom_facts   : {call_bb: (dim, frozenset(values when the call answers true), frozenset(values when false))} for
+                   bool-returning calls; the answer is followed through copies, `!`, named flags and `match flag`.
+    marks        : {bb: label} sites of interest; a state carries the set of labels of the sites it went through.
+
+    Constants assigned to bool flags (`matches!`), known enum variants of locals and the outcome of `Try::branch` /
+    `from_residual` on them are propagated and decide the switches on them; a switch on a local's discriminant teaches
+    the variant on each edge.  A state whose facts become contradictory is infeasible and dropped.
+    Returns [{"kind": "return"|"diverge"|"stop", "bb", "facts": {dim: frozenset}, "marks": frozenset, "result": variant
+    name of the returned enum value if known}] or None if the state budget is exceeded."""
+    from .lib import operand_local
+    switch_facts = switch_facts or {}
+    atom_facts = atom_facts or {}
+    marks = marks or {}
+    stops = set(stops)
+    fn.succ(0)
+    adts = fn.facts.adts
+    live = _live_blocks(fn)
+    # locals that are ever borrowed mutably can change behind the analysis' back: never tracked
+    untracked = set()
+    for b, i, st in fn.stmts():
+        if st["rv"]["rv"] in ("ref", "rawptr") and st["rv"].get("mut"):
+            untracked.add(st["rv"]["pl"]["l"])
+    sw_info = {}
+
+    def info_of(bb):
+        if bb not in sw_info:
+            sw_info[bb] = fn.switch_on(bb)
+        return sw_info[bb]
+
+    def bare(op):
+        return op["pl"]["l"] if op.get("k") in ("copy", "move") and not op["pl"]["p"] else None
+
+    def is_enum(adt):
+        a = adts.get(adt)
+        return bool(a) and a.get("kind") == "enum"
+
+    results = []
+    seen = set()
+    work = [(start, (), (), frozenset())]
+    first = True
+    n = 0
+    while work:
+        bb, vals_t, facts_t, mk = work.pop()
+        key = (bb, vals_t, facts_t, mk)
+        if key in seen:
+            continue
+        seen.add(key)
+        n += 1
+        if n > max_states:
+            return None
+        facts = dict(facts_t)
+        if bb in stops and not first:
+            results.append({"kind": "stop", "bb": bb, "facts": facts, "marks": mk, "result": None})
+            continue
+        first = False
+        if bb in marks:
+            mk = mk | {marks[bb]}
+        vals = dict(vals_t)
+        blk = fn.blocks[bb]
+        for st in blk["st"]:
+            if st["s"] != "assign":
+                continue
+            l = st["pl"]["l"]
+            if st["pl"]["p"]:
+                if "*" not in st["pl"]["p"]:
+                    vals.pop(l, None)
+                continue
+            rv = st["rv"]
+            new = None
+            if rv["rv"] == "use":
+                op = rv["op"]
+                if op.get("k") == "const" and op.get("ty") == "bool" and op.get("val") and "int" in op["val"]:
+                    new = ("c", bool(op["val"]["int"]))
+                elif bare(op) is not None:
+                    new = vals.get(bare(op))
+            elif rv["rv"] == "unop" and rv["op"] == "Not":
+                v = vals.get(bare(rv["a"])) if bare(rv["a"]) is not None else None
+                if v is not None and v[0] in ("c", "a"):
+                    new = ("c", not v[1]) if v[0] == "c" else ("a", v[1], not v[2])
+            elif rv["rv"] == "agg" and rv.get("agg") == "adt" and rv.get("variant") and is_enum(rv.get("adt")):
+                new = ("v", rv["adt"], rv["variant"])
+            if new is None or l in untracked:
+                vals.pop(l, None)
+            else:
+                vals[l] = new
+        t = blk["term"]
+        if t["t"] == "call":
+            d = t["dest"]
+            vals.pop(d["l"], None)
+            callee = t.get("callee") or ""
+            if not d["p"] and d["l"] not in untracked:
+                if bb in atom_facts:
+                    for x in [x for x, v in vals.items() if v[0] == "a" and v[1] == bb]:
+                        del vals[x]
+                    vals[d["l"]] = ("a", bb, False)
+                elif callee.endswith("ops::FromResidual::from_residual"):
+                    res = t.get("resolved") or ""
+                    if res.startswith("<std::result::Result<"):
+                        vals[d["l"]] = ("v", RES_ADT, "Err")
+                    elif res.startswith("<std::option::Option<"):
+                        vals[d["l"]] = ("v", OPT_ADT, "None")
+                elif callee.endswith("ops::Try::branch") and t["args"] and bare(t["args"][0]) is not None:
+                    v = vals.get(bare(t["args"][0]))
+                    if v is not None and v[0] == "v" and v[1] in (RES_ADT, OPT_ADT):
+                        vals[d["l"]] = ("v", CF_ADT, "Continue" if v[2] in ("Ok", "Some") else "Break")
+        succs = list(fn.succ(bb))
+        if not succs:
+            r = vals.get(0)
+            results.append({"kind": "return" if t["t"] == "return" else "diverge", "bb": bb, "facts": facts, "marks": mk,
+                            "result": r[2] if r is not None and r[0] == "v" else None})
+            continue
+        nxt = None     # [(successor, facts, {local: value learnt on this edge})]
+        if t["t"] == "switch" and len(succs) > 1:
+            dl = bare(t["discr"])
+            v = vals.get(dl) if dl is not None else None
+            false_t = None
+            for val, tgt in t["targets"]:
+                if val == 0:
+                    false_t = tgt
+            if bb in switch_facts:
+                nxt = []
+                for sx in succs:
+                    f2 = dict(facts)
+                    feasible = True
+                    for dim, per_edge in switch_facts[bb]:
+                        allowed = per_edge.get(sx)
+                        if allowed is None:
+                            continue
+                        cur = f2.get(dim)
+                        got = allowed if cur is None else (cur & allowed)
+                        if not got:
+                            feasible = False
+                            break
+                        f2[dim] = got
+                    if feasible:
+                        nxt.append((sx, f2, {}))
+            elif v is not None and v[0] in ("c", "a") and false_t is not None and fn.local_ty(dl) == "bool":
+                true_t = t["otherwise"]
+                nxt = []
+                if v[0] == "c":
+                    tgt = true_t if v[1] else false_t
+                    if tgt in succs:
+                        nxt.append((tgt, facts, {}))
+                else:
+                    dim, vt, vf = atom_facts[v[1]]
+                    for tgt, holds in ((true_t, True), (false_t, False)):
+                        if tgt not in succs:
+                            continue
+                        allowed = vt if (holds != v[2]) else vf
+                        cur = facts.get(dim)
+                        got = allowed if cur is None else (cur & allowed)
+                        if not got:
+                            continue
+                        f2 = dict(facts)
+                        f2[dim] = got
+                        nxt.append((tgt, f2, {}))
+            else:
+                info = info_of(bb)
+                if info.get("kind") == "discr" and not info["place"]["p"] and info.get("variants") and is_enum(info.get("adt")):
+                    sl = info["place"]["l"]
+                    kv = vals.get(sl)
+                    sets = edge_variant_sets(fn, bb, info)
+                    nxt = []
+                    for sx in succs:
+                        names = sets.get(sx, frozenset())
+                        if kv is not None and kv[0] == "v":
+                            if kv[2] in names:
+                                nxt.append((sx, facts, {}))
+                        elif len(names) == 1 and sl not in untracked:
+                            nxt.append((sx, facts, {sl: ("v", info["adt"], list(names)[0])}))
+                        elif names:
+                            nxt.append((sx, facts, {}))
+        if nxt is None:
+            nxt = [(sx, facts, {}) for sx in succs]
+        for sx, f2, learnt in nxt:
+            v2 = dict(vals)
+            v2.update(learnt)
+            v2 = {l: x for l, x in v2.items() if sx in live.get(l, ())}
+            work.append((sx, tuple(sorted(v2.items())), tuple(sorted(f2.items(), key=lambda kv: repr(kv[0]))), mk))
+    return results
+
+
+def compatible(facts, cell):
+    """A concrete cell {dim: value} is compatible with path facts {dim: frozenset} when no fact excludes it."""
+    return all(dim not in facts or val in facts[dim] for dim, val in cell.items())
